@@ -360,6 +360,13 @@ func execC11(ctx *Ctx, in *Input) *Result {
 			}
 			// translate: every code -> its own symbol; -1 -> end marker; any other integer -> the error column (symbol 0)
 			codes := probes[u.Name]
+			if jr.TransMissing {
+				// the TypeScript file has no function called `translate` (a private helper a tree may rename): the
+				// translation is then only observable through parsing, which C01/C02/C06/C08 do
+				res.Count("typescript_translate_not_callable_by_name(skipped)", 1)
+				res.Count("files_checked", 1)
+				continue
+			}
 			if len(jr.Trans) != len(codes) {
 				res.Harness = "translate probe count mismatch"
 				return res
